@@ -159,7 +159,9 @@ func (d *shieldDB) BeginReadTx() (mwdb.ReadTransaction, error) {
 
 func (s *fsess) wrap(db mwdb.DB) mwdb.DB {
 	s.raw = db
-	return &shieldDB{DB: s.ctl.Wrap(db), raw: db}
+	// (the shield was needed before /repo commit 6aa80c4: a fault in initTaskChan's read transaction left the task
+	// queue nil and the worker's panic ended the process; Start now reports the failure, so nothing is shielded)
+	return s.ctl.Wrap(db)
 }
 
 func (s *fsess) ks() *keystore.KeystoreManager {
